@@ -513,6 +513,65 @@ func propSplit(c SplitCase, r *pbt.R) error {
 	return nil
 }
 
+// Values that compare equal with == but are told apart by the predicate: +0.0 and -0.0 under math.Signbit.
+// (A helper that remembers the predicate's verdict per distinct value would route -0.0 like an earlier +0.0.)
+var floatTab = []float64{0, math.Copysign(0, -1), 1.5, -2.5}
+
+func propSplitFloat(c SliceCase, r *pbt.R) error {
+	in := make([]float64, len(c.S))
+	for i, v := range c.S {
+		in[i] = floatTab[mod(v, len(floatTab))]
+	}
+	bits := func(fs []float64) []uint64 {
+		out := make([]uint64, len(fs))
+		for i, f := range fs {
+			out[i] = math.Float64bits(f)
+		}
+		return out
+	}
+	neg := func(f float64) bool { return math.Signbit(f) }
+	var yes, no []float64
+	for _, f := range in {
+		if neg(f) {
+			yes = append(yes, f)
+		} else {
+			no = append(no, f)
+		}
+	}
+	show := func(fs []float64) string { return fmt.Sprintf("%v", fs) }
+	if p := gogu.Partition(clone(in), neg); !same(bits(p[0]), bits(yes)) || !same(bits(p[1]), bits(no)) {
+		return fmt.Errorf("Partition(%s, Signbit) = [%s %s], want [%s %s] (-0 is negative, +0 is not)", show(in), show(p[0]), show(p[1]), show(yes), show(no))
+	}
+	if got := gogu.Filter(clone(in), neg); !same(bits(got), bits(yes)) {
+		return fmt.Errorf("Filter(%s, Signbit) = %s, want %s", show(in), show(got), show(yes))
+	}
+	if got := gogu.Reject(clone(in), neg); !same(bits(got), bits(no)) {
+		return fmt.Errorf("Reject(%s, Signbit) = %s, want %s", show(in), show(got), show(no))
+	}
+	if got := gogu.DropWhile(clone(in), neg); !same(bits(got), bits(no)) {
+		return fmt.Errorf("DropWhile(%s, Signbit) = %s, want %s", show(in), show(got), show(no))
+	}
+	if got := gogu.DropRightWhile(clone(in), neg); !same(bits(got), bits(reversed(no))) {
+		return fmt.Errorf("DropRightWhile(%s, Signbit) = %s, want %s", show(in), show(got), show(reversed(no)))
+	}
+	groups := gogu.GroupBy(clone(in), func(f float64) bool { return math.Signbit(f) })
+	if !same(bits(groups[true]), bits(yes)) || !same(bits(groups[false]), bits(no)) || len(groups) > 2 {
+		return fmt.Errorf("GroupBy(%s, Signbit) = %v, want true:%s false:%s", show(in), groups, show(yes), show(no))
+	}
+	mapped := gogu.Map(clone(in), func(f float64) bool { return math.Signbit(f) })
+	for i, f := range in {
+		if i >= len(mapped) || mapped[i] != neg(f) {
+			return fmt.Errorf("Map(%s, Signbit) = %v: element %d", show(in), mapped, i)
+		}
+	}
+	pz, nz := false, false
+	for _, v := range c.S {
+		pz, nz = pz || mod(v, 4) == 0, nz || mod(v, 4) == 1
+	}
+	r.NonTrivialIf(pz && nz, "holds both +0.0 and -0.0")
+	return nil
+}
+
 // ---------------------------------------------------------------------------
 // GroupBy
 
@@ -1553,6 +1612,13 @@ func TestProp(t *testing.T) {
 				rnd + " with a 16-bit membership mask on v&15, v<k or v%3==r. Non-trivial = non-empty slice (labels: which part is empty)." + dist,
 			Enum: enumSplit, Gen: genSplit, Prop: propSplit, OutOfEnum: splitOutOfEnum,
 			RapidQuick: 1200, RapidThorough: 30000,
+		},
+		&pbt.Check[SliceCase]{
+			Name: "split-signed-zero",
+			Rule: "Partition, Filter, Reject, DropWhile, DropRightWhile, GroupBy and Map on float64 slices over {+0.0, -0.0, 1.5, -2.5} with math.Signbit as predicate / key: +0.0 == -0.0, yet the predicate tells them apart, so each element must be routed by the predicate's answer for THAT element (results compared bit-wise). " +
+				sl + "; " + rnd + ". Non-trivial = the slice holds both zeros.",
+			Enum: enumSliceCase, Gen: genSliceCase, Prop: propSplitFloat, OutOfEnum: sliceCaseOutOfEnum,
+			RapidQuick: 300, RapidThorough: 5000,
 		},
 		&pbt.Check[GroupCase]{
 			Name: "groupby",
